@@ -206,6 +206,7 @@ func (changes *Changes) checkFiles() error {
 // be used to move something into an incoming directory with an inotify
 // hook. This will also mutate Changes.Filename to match the new location.
 func (changes *Changes) Copy(dest string) error {
+	dest = internal.ResolveDir(dest)
 	if file, err := os.Stat(dest); err == nil && !file.IsDir() {
 		return fmt.Errorf("Attempting to move .changes to a non-directory")
 	}
@@ -235,6 +236,7 @@ func (changes *Changes) Copy(dest string) error {
 // be used to move something into an incoming directory with an inotify
 // hook. This will also mutate Changes.Filename to match the new location.
 func (changes *Changes) Move(dest string) error {
+	dest = internal.ResolveDir(dest)
 	if file, err := os.Stat(dest); err == nil && !file.IsDir() {
 		return fmt.Errorf("Attempting to move .changes to a non-directory")
 	}
